@@ -558,6 +558,8 @@ class RZILTransformer(Transformer):
                 Branch("branch", cond=items[0], then=Empty(""), otherwise=hybrid.stmt)
             )
 
+        then_p = self.promotion_cast(then_p)
+        else_p = self.promotion_cast(else_p)
         then_p, else_p = self.cast_operands(a=then_p, b=else_p, immutable_a=False)
         return self.add_op(Ternary(f"cond", items[0], then_p, else_p))
 
